@@ -152,6 +152,14 @@ CHECKS = {
             "TraceResample.tla; ln-based closed forms and the optimiser are checked numerically on the spec-selected multiset.",
             "Trusted: TLC. Statistical judgement (false alarm 1e-9), logarithms and the bounded optimiser are harness side (DESIGN.md section 6).",
             "TLA+ model checking (TLC) + spec-to-code replay of nondeterministic outcomes + trace validation"),
+    "C18": ("DESIGN.md 4/C18",
+            "Cleaning.tla: isvalidaa / isvalidcdr3 over object classes (Judge), standardize_dataframe as Copy, Rename, one MapColumn per standard "
+            "column with the per-cell standardiser supplied as data, multimerge as a reduce of joins (MergeStart, MergeNext); TLC checks "
+            "CellLocal, MissingStaysMissing, ExtraColumnsKept, InputUnchanged, MergeIsJoin over all small tables / key sets / strings and rejects "
+            "a standardiser applied to missing cells. Every terminal behaviour is executed on the real functions (several concrete objects per "
+            "class, index variants, option sets, how / suffixes / index-or-column keys).",
+            "Trusted: TLC; tidytcells as per-cell oracle (called by the harness on each single cell). multimerge with unique keys.",
+            "TLA+ model checking (TLC) + spec-to-code replay"),
 }
 
 NOT_YET = {
